@@ -31,6 +31,13 @@ let () = run_lines (fun toks ->
        let nb = if Array.length a > 1 then zs a.(1) else z_of_string (string_of_int (List.length pp)) in
        let (n, g) = Model.sqrfree p nb pp in
        string_of_z n ^ " " ^ str_list (firstn (int_of_string (string_of_z n)) g) ^ " #0"
+     | "sqrfree2" ->      (* Poly1Dom::sqrfree as repaired by frag/C09.fix-6 (used when /repo has the p-th-root branch) *)
+       let pp = poly_of a.(0) in
+       let nb = if Array.length a > 1 then zs a.(1) else z_of_string (string_of_int (List.length pp)) in
+       let (n, g) = Model.sqrfree_rep p (nat_of_int (List.length pp + 1)) nb pp in
+       string_of_z n ^ " " ^ str_list (firstn (int_of_string (string_of_z n)) g) ^ " #0"
+     | "cz2" -> (match Model.czfactor_rep p (poly_of a.(0)) p s with
+         | None -> none | Some ((lf, le), s') -> str_list lf ^ " " ^ str_exps le ^ used s')
      | "ddf" -> (match Model.ddf p (poly_of a.(0)) p [] s with
          | None -> none | Some (l, s') -> str_list l ^ used s')
      | "split" -> let g = poly_of a.(0) in
@@ -55,5 +62,8 @@ let () = run_lines (fun toks ->
          | None -> none | Some (r, s') -> str_poly r ^ used s')
      | "randproot" -> (match Model.random_prim_root p (nat_of_int (int_of_string a.(0))) p s with
          | None -> none | Some ((pp, r), s') -> str_poly pp ^ " " ^ str_poly r ^ used s')
+     | "diff" -> str_poly (Model.pdiff p (poly_of a.(0))) ^ " #0"
+     | "powmod" -> str_poly (Model.ppowmod p (poly_of a.(0)) (zs a.(1)) (poly_of a.(2))) ^ " #0"
+     | "gcd" -> str_poly (Model.pgcd p (poly_of a.(0)) (poly_of a.(1))) ^ " #0"
      | _ -> "UNKNOWN-OP")
   | _ -> "BAD-LINE")
